@@ -224,6 +224,40 @@ def once_per_iteration(fn, par, L, mod):
     return False
 
 
+def running_counter(fn, par, L, d, use, rs=None):
+    """T r(a); <loop L> { ... use(r) ...; r += S; }  — a local that is modified exactly once, by `+= S` / `++`, once per iteration of loop L (any loop kind, also a
+    range-for), declared at the nesting level of L.  Returns dict(start=init node, step=S node | None for 1, phase=0 if `use` sees the value before this
+    iteration's update, 1 after) — then r == a + (iteration number + phase) * S at `use` provided S does not change — or None."""
+    mods = _mods_of(fn).get(d, [])
+    if len(mods) != 1:
+        return None
+    st = _step_of(mods[0])
+    if st is None or st[0] < 0:
+        return None
+    if not any(node is L for node, sl in dfl.enclosing_stmt_chain(par, mods[0])) or not once_per_iteration(fn, par, L, mods[0]):
+        return None
+    la = loops_around(par, mods[0])
+    if not la or la[-1] is not L:
+        return None            # updated in a nested loop: not once per iteration of L
+    var = None
+    for n in fn.nodes():
+        if n.get("k") == "Var" and n.get("d") == d:
+            var = n
+    if var is None or var.get("init") is None:
+        return None
+    if [id(x) for x in dfl.enclosing_loops(fn, par, var)] != [id(x) for x in dfl.enclosing_loops(fn, par, L)]:
+        return None
+    ph = KernelModel._phase(_PhaseOnly(par), use, L, mods[0])
+    if ph is None:
+        return None
+    return {"start": var["init"], "step": st[1], "phase": ph, "mod": mods[0]}
+
+
+class _PhaseOnly:
+    def __init__(self, par):
+        self.par = par
+
+
 def loops_around(par, n):
     """enclosing loops (outermost first) whose every iteration evaluates n: n sits in the body, the condition or the increment"""
     out = []
@@ -468,6 +502,26 @@ class KernelModel:
                 return (None, Poly.atom("%s[%s]" % (a[0], a[1].key())))
         if k == "SizeOf":
             return (None, Poly.atom(render(n)))
+        if k == "Member" and (n.get("b") is None or n["b"].get("k") == "This"):
+            return (None, Poly.atom("[this.%s]" % n.get("n")))
+        if k == "MCall" and n.get("cconst") and not self.fn.ntype(n).strip().endswith("*"):
+            # value of a const accessor (loop bound, size): an opaque but stable quantity if its receiver and arguments are
+            o = n.get("obj")
+            parts = []
+            ok = True
+            for x in ([o] if o is not None and o.get("k") != "This" else []) + list(n.get("a", [])):
+                xs = _strip(x)
+                if xs is not None and xs.get("k") == "Ref" and (xs.get("dk") == "param" or (xs.get("dk") == "local" and not self.mods.get(xs.get("d")) and xs.get("d") not in self.addr_taken)):
+                    parts.append(xs.get("n"))
+                elif xs is not None and xs.get("k") == "Member" and (xs.get("b") is None or xs["b"].get("k") == "This"):
+                    parts.append("this." + xs.get("n"))
+                else:
+                    v = self.val(x, use)
+                    if v[0] is not None or v[1].unknown():
+                        ok = False
+                    parts.append(v[1].key())
+            if ok:
+                return (None, Poly.atom("[%s:%s]" % (callee_name(n), ",".join(parts))))
         return (None, Poly.atom("?" + render(n)[:40]))
 
     def _local(self, ref, use):
@@ -900,11 +954,16 @@ def inline_helpers(fn, select, rounds=2):
             if pr is None or "i" not in n or cur.cfg.block_of(n["i"]) is None:
                 continue
             pn, slot = pr
+            tail = None
+            if pn.get("k") == "Return" and slot == "e" and id(pn) in par:
+                # `return helper(args);` — the helper's returns become the caller's returns
+                tail = pn
+                pn, slot = par[id(pn)]
             if not ((pn.get("k") == "Block" and isinstance(slot, tuple) and slot[0] == "s") or (pn.get("k") in ("If", "For", "While", "Do", "ForRange") and slot in ("then", "else", "body"))):
                 continue
             if not select(n, g):
                 continue
-            sites.append((n, g, args))
+            sites.append((n, g, args, tail))
         if not sites:
             break
         d = copy.deepcopy(cur.d)
@@ -918,8 +977,9 @@ def inline_helpers(fn, select, rounds=2):
         blocks = d["cfg"]["blocks"]
         next_b = max(b["id"] for b in blocks) + 1
         exit_id = d["cfg"]["exit"]
-        for call0, g, args0 in sites:
+        for call0, g, args0, tail0 in sites:
             call = byid[call0["i"]]
+            tail = byid[tail0["i"]] if tail0 is not None else None
             args = call.get("a", []) if call.get("k") != "OpCall" else call["a"][1:]
             serial[0] += 1
             off_d = 10000000 * serial[0]
@@ -941,7 +1001,7 @@ def inline_helpers(fn, select, rounds=2):
                 elif x.get("k") == "Ref" and x.get("dk") in ("local", "param") and (x.get("d") in own or x.get("d") in pd):
                     x["d"] = x["d"] + off_d
                     x["dk"] = "local"
-                elif x.get("k") == "Return":
+                elif x.get("k") == "Return" and tail is None:
                     x["k"] = "InlinedReturn"
             pvars = []
             for p, a in zip(g.params, args):
@@ -956,7 +1016,7 @@ def inline_helpers(fn, select, rounds=2):
             next_i += 1
             blk = {"k": "Block", "i": next_i, "l": call.get("l"), "s": [decl, gb], "inlined": g.qn}
             next_i += 1
-            pn, slot = npar[id(call)]
+            pn, slot = npar[id(tail if tail is not None else call)]
             if isinstance(slot, tuple):
                 pn[slot[0]][slot[1]] = blk
             else:
@@ -975,11 +1035,16 @@ def inline_helpers(fn, select, rounds=2):
             next_b += 1
             bmap = {}
             for b in gc["blocks"]:
+                if tail is not None and b["id"] == gc["exit"]:
+                    bmap[b["id"]] = exit_id          # tail call: the helper's returns leave the caller
+                    continue
                 bmap[b["id"]] = next_b
                 next_b += 1
             where["el"] = where["el"][:pos] + [decl["i"]]
             where["succ"] = [bmap[gc["entry"]]]
             for b in gc["blocks"]:
+                if tail is not None and b["id"] == gc["exit"]:
+                    continue
                 nb = dict(b)
                 nb["id"] = bmap[b["id"]]
                 els = []
@@ -1000,7 +1065,8 @@ def inline_helpers(fn, select, rounds=2):
                 else:
                     nb["succ"] = [bmap[s_] if s_ is not None else None for s_ in b.get("succ", [])]
                 blocks.append(nb)
-            blocks.append(post)
+            if tail is None:
+                blocks.append(post)
             for x in walk(gb):
                 if "i" in x:
                     byid[x["i"]] = x
@@ -1010,7 +1076,7 @@ def inline_helpers(fn, select, rounds=2):
                     b["succ"] = [exit_id]
         new._byid = None
         # a closure whose every use was an inlined call is dead: drop its body so that the statements exist once (in the inlined place)
-        inlined_calls = {c0["i"] for c0, g_, a_ in sites if c0.get("k") == "OpCall"}
+        inlined_calls = {c0["i"] for c0, g_, a_, t_ in sites if c0.get("k") == "OpCall"}
         if inlined_calls:
             lam_vars = {}
             for x in new.nodes():
@@ -1021,7 +1087,7 @@ def inline_helpers(fn, select, rounds=2):
                 if x.get("k") == "Ref" and x.get("d") in lam_vars:
                     uses[x["d"]] = uses.get(x["d"], 0) + 1
             for d_, v_ in lam_vars.items():
-                ncalls = sum(1 for c0, g_, a_ in sites if c0.get("k") == "OpCall" and c0["a"][0].get("d") == d_)
+                ncalls = sum(1 for c0, g_, a_, t_ in sites if c0.get("k") == "OpCall" and c0["a"][0].get("d") == d_)
                 # (the callee operand of an inlined call was removed from the tree together with the call statement)
                 if ncalls and uses.get(d_, 0) == 0:
                     v_["init"] = dict(v_["init"], body=None, inlined=True)
@@ -1029,7 +1095,7 @@ def inline_helpers(fn, select, rounds=2):
         ir = {x["i"] for x in new.nodes() if x.get("k") == "InlinedReturn" and "i" in x}
         for b in blocks:
             b["el"] = [e for e in b["el"] if e not in ir]
-        new.inlined_from = getattr(cur, "inlined_from", []) + [g.qn for _, g, _ in sites]
+        new.inlined_from = getattr(cur, "inlined_from", []) + [g.qn for _, g, _, _ in sites]
         cur = new
     return cur
 
